@@ -189,3 +189,44 @@ Definition k_obj (o : sobj) : kterm :=
   match o with ONode n => k_node n | OLit _ suf => KLit (dt_of suf) end.
 
 Definition kinded (t : striple) : kterm * str * kterm := (k_node (t_s t), t_p t, k_obj (t_o t)).
+
+(** ** documents with comment lines and blank lines
+
+    A document is a list of LINES.  A line is a statement (with its layout), a
+    comment line (optional blanks, '#', anything but a line end) or a blank line
+    (blanks only); the line separator is LF, so a final line end is a final
+    blank line.  The document MEANS the list of its statements, in order:
+    comment lines and blank lines mean nothing. *)
+Inductive dline :=
+| DStmt (t : striple) (l : layout)
+| DComment (w txt : str)
+| DBlank (w : str).
+
+Definition valid_dline (d : dline) : bool :=
+  match d with
+  | DStmt t l => valid_triple t && valid_layout l
+  | DComment w txt => all_ws w && forallb comment_char txt
+  | DBlank w => all_ws w
+  end.
+
+Definition r_dline (d : dline) : str :=
+  match d with
+  | DStmt t l => nt_line t l
+  | DComment w txt => w ++ Str "#" ++ txt
+  | DBlank w => w
+  end.
+
+Definition nt_document (ds : list dline) : str := join [ascii_of_nat 10] (map r_dline ds).
+
+Fixpoint statements (ds : list dline) : list (striple * layout) :=
+  match ds with
+  | [] => []
+  | DStmt t l :: ds' => (t, l) :: statements ds'
+  | _ :: ds' => statements ds'
+  end.
+
+Definition doc_kinded (ds : list dline) : list (kterm * str * kterm) :=
+  map (fun x => kinded (fst x)) (statements ds).
+
+(** a document of statements only is [nt_doc] *)
+Definition stmt_lines (ts : list (striple * layout)) : list dline := map (fun x => DStmt (fst x) (snd x)) ts.
